@@ -565,6 +565,20 @@ func csprngBufferNotOverwritten(c *Check, rule string) {
 				"the buffer filled by crypto/rand.Read can be overwritten before it is turned into an identifier: "+why)
 		}
 	}
+	if n == 0 {
+		// no buffer is filled: the generator draws through crypto/rand.Int / Text / Prime, which hand back a fresh value
+		// (nothing to overwrite between the draw and its use)
+		other := 0
+		for _, fn := range P.Funcs {
+			if isOwnPath(pkgPathOf(fn)) {
+				other += len(callsTo(fn, "crypto/rand.Int")) + len(callsTo(fn, "crypto/rand.Text")) + len(callsTo(fn, "crypto/rand.Prime"))
+			}
+		}
+		if other > 0 {
+			c.Pass(rule, "csprng-fill-sites", "-", fmt.Sprintf("no buffer filled by crypto/rand.Read; %d draw(s) through crypto/rand.Int/Text/Prime return fresh values", other))
+			return
+		}
+	}
 	c.Obl(n >= 1, rule, "csprng-fill-sites", "-", fmt.Sprintf("%d crypto/rand.Read site(s) in own code", n), "no crypto/rand.Read call found in own code (anchor lost)")
 }
 
@@ -575,7 +589,14 @@ func entropyAmountIsConstant(c *Check, rule string) {
 	P := c.P
 	n := 0
 	for _, helper := range P.Funcs {
-		if !isOwnPath(pkgPathOf(helper)) || len(callsTo(helper, "crypto/rand.Read")) == 0 {
+		if !isOwnPath(pkgPathOf(helper)) {
+			continue
+		}
+		draws := 0
+		for _, d := range cryptoRandDraws {
+			draws += len(callsTo(helper, d))
+		}
+		if draws == 0 {
 			continue
 		}
 		var sizeIdx []int
